@@ -265,7 +265,7 @@ def run_sched(schedule, battery):
             deviated += 1
     sch.release_all()
     for t in threads.values():
-        t.join(30)
+        t.join(120)
     events = []
     for n in names:
         kind, val = results.get(n, ("error", "thread did not finish"))
@@ -374,7 +374,7 @@ def run_stress(nthreads, battery):
     for t in ts:
         t.start()
     for t in ts:
-        t.join(60)
+        t.join(240)
     events = []
     for i in range(nthreads):
         n = "s%d" % i
@@ -415,7 +415,7 @@ def run_shared(nthreads, battery):
     for t in ts:
         t.start()
     for t in ts:
-        t.join(120)
+        t.join(240)
     for i in range(nthreads):
         events.extend(got.get(i, [{"e": "Create", "conv": "t%d" % i, "cfg": "fresh", "ok": False, "exc": "thread did not finish"}]))
     return {"events": events, "forced": 0, "deviated": 0}
